@@ -36,9 +36,9 @@ def plan(tier, seed):
         for c in [{'signature': [1, 1]}, {'signature': [0, 1]}, {'signature': [1, -1]}]:
             U += u(c, 'exh_canon', 4)
         U += u(dict({'signature': [-1, 0]}, opts={'cse': False}), 'exh_canon_sample', 2, frac=0.5)
-        for c in rng.sample(d3, 8):
-            U += u(c, 'gradeblocks', 1, count=25, cap=4)
-            U += u(c, 'sparse', 1, count=40, cap=4, perm=0.3)
+        for c in rng.sample(d3, 14):
+            U += u(c, 'gradeblocks', 1, count=50, cap=4)
+            U += u(c, 'sparse', 1, count=120, cap=4, perm=0.3)
         U += u(dict({'p': 3, 'q': 0, 'r': 0}, opts={'cse': False}), 'sparse', 1, count=30, cap=4)
         for c in rng.sample(gen.pqr_all(4, 4), 5) + rng.sample(gen.pqr_all(5, 5), 3):
             U += u(c, 'gradeblocks', 1, count=10, cap=6)
